@@ -15,7 +15,9 @@ def ref_prefix(prefix: str) -> RefFactory:
 
 def isolate_ref(schema: Dict[str, Any]):
     if "$ref" in schema and len(schema) > 1:
-        schema.setdefault("allOf", []).append({"$ref": schema.pop("$ref")})
+        # new list: the schema is a shallow copy which shares its values with the
+        # user's own schema(extra=...)
+        schema["allOf"] = [*schema.get("allOf", ()), {"$ref": schema.pop("$ref")}]
 
 
 def to_json_schema_2019_09(schema: JsonSchema) -> Dict[str, Any]:
@@ -60,9 +62,11 @@ def to_open_api_3_0(schema: JsonSchema) -> Dict[str, Any]:
             result.setdefault("nullable", True)
         result["type"] = [t for t in result["type"] if t != "null"]
         if len(result["type"]) > 1:
-            result.setdefault("anyOf", []).extend(
-                {"type": t} for t in result.pop("type")
-            )
+            any_of = [{"type": t} for t in result.pop("type")]
+            if "anyOf" in result:  # both must hold
+                result["allOf"] = [*result.get("allOf", ()), {"anyOf": any_of}]
+            else:
+                result["anyOf"] = any_of
         else:
             result["type"] = result["type"][0]
     if "examples" in result:
